@@ -182,8 +182,10 @@ class SimE(Simulator):
                 ops.append(["edit", "change_future", rng.randint(0, 9), f"Mark: c{uniq}"])
             elif r < 0.68:
                 ops.append(["edit", "delete_future", rng.randint(0, 9), None])
-            elif r < 0.8:
+            elif r < 0.76:
                 ops.append(["edit", "change_started", rng.randint(0, 9), f"Mark: x{uniq}"])
+            elif r < 0.8:
+                ops.append(["edit", "reindent_started", rng.randint(0, 9), rng.randint(0, 1)])
             elif r < 0.85:
                 ops.append(["edit", "same", 0, None])
             else:
@@ -231,10 +233,19 @@ class SimE(Simulator):
             if rng.random() < 0.3:
                 name = rng.choice(list(gen.PV_VALUES))
                 ops.append(["pv", name, rng.choice(gen.PV_VALUES[name])])
+            if rng.random() < 0.25:
+                # a user control command next to the method's own Pause/Hold: both flags can be set at once
+                ops.append(["user", rng.choice(["Pause", "Hold", "Unpause", "Unhold", "Pause", "Hold"])])
+                ops.append(["tick", rng.choice([1, 2, 3]), 0.1])
             r = rng.random()
             what = rng.choice(["cancel", "force"])
             mode = "offered" if r < 0.6 else ("any" if r < 0.93 else "unknown")
             ops.append([what, rng.randint(0, 30), mode])
+        if rng.random() < 0.5:
+            ops.append(["tick", 3, 0.1])
+            ops.append(["user", "Unpause"])
+            ops.append(["tick", 1, 0.1])
+            ops.append(["user", "Unhold"])
         ops.append(["tick", 25, 0.1])
         ops.append(["settle", 200])
         ops.append(["end_stop"])
@@ -422,6 +433,7 @@ class SimE(Simulator):
         world = EngineWorld(res, rec, recovery=cfg.get("recovery", False), archiver=bool(cfg.get("archiver")),
                             data_log_interval=cfg.get("data_log_interval", 5.0), fs=fs)
         world.fs = fs
+        self.last_world = world          # tools/trace.py
         try:
             self._run(world, plan, res, tape)
         finally:
